@@ -164,49 +164,102 @@ def _worker_chunk(modname, params, tier, root, indices, chunk_timeout):
         faulthandler.cancel_dump_traceback_later()
 
 
-def run_batch(mod, params, tier, root):
-    """Fan the run indices out over a fork pool.  The set of runs depends on
-    (root, tier) only, never on the number of workers or on timing."""
-    import multiprocessing
-    from concurrent.futures import ProcessPoolExecutor
+def chunk_size(params):
     n = params['runs']
-    chunk = max(1, min(params.get('chunk', 200), (n + NPROC - 1) // NPROC))
+    return max(1, min(params.get('chunk', 200), (n + 15) // 16))
+
+
+def _child_main(conn, modname, params, tier, root, indices, chunk_timeout):
+    try:
+        try:
+            res = _worker_chunk(modname, params, tier, root, indices,
+                                chunk_timeout)
+        except BaseException:
+            res = ('error', traceback.format_exc())
+        conn.send(res)
+        conn.close()
+    finally:
+        os._exit(0)
+
+
+def run_batch(mod, params, tier, root):
+    """Fan the run indices out over forked processes, ONE FRESH PROCESS PER
+    CHUNK: the set of runs depends on (root, tier) only, and the in-process
+    history of every run is exactly the runs of its chunk before it (which is
+    what lets a violation that depends on state left behind by earlier runs
+    be replayed, see exec_case / prelude)."""
+    import multiprocessing
+    import multiprocessing.connection as mpc
+    n = params['runs']
+    chunk = chunk_size(params)
     chunks = [list(range(a, min(n, a + chunk))) for a in range(0, n, chunk)]
     deadline = time.time() + params.get('timeout_s', 3600)
+    ctimeout = params.get('chunk_timeout_s', 900)
+    results = {}
+    if NPROC == 1 or os.environ.get('VERIF_INPROC'):
+        for ci, ch in enumerate(chunks):
+            results[ci] = _worker_chunk(mod.__name__, params, tier, root, ch,
+                                        ctimeout)
+    else:
+        ctx = multiprocessing.get_context('fork')
+        pending = list(enumerate(chunks))
+        pending.reverse()
+        running = {}
+        try:
+            while pending or running:
+                while pending and len(running) < NPROC:
+                    ci, ch = pending.pop()
+                    rd, wr = ctx.Pipe(duplex=False)
+                    p = ctx.Process(target=_child_main, args=(
+                        wr, mod.__name__, params, tier, root, ch, ctimeout))
+                    p.daemon = True
+                    p.start()
+                    wr.close()
+                    running[rd] = (ci, p)
+                ready = mpc.wait(list(running), timeout=5)
+                for rd in ready:
+                    ci, p = running.pop(rd)
+                    try:
+                        res = rd.recv()
+                    except (EOFError, OSError):
+                        raise HarnessError('worker for chunk %d died (hang '
+                                           'watchdog or crash)' % ci)
+                    finally:
+                        rd.close()
+                    p.join(10)
+                    if res and res[0] == 'error':
+                        raise HarnessError('worker chunk %d failed:\n%s'
+                                           % (ci, res[1]))
+                    results[ci] = res
+                if time.time() > deadline:
+                    raise HarnessError('batch wall-clock guard (%ds) expired'
+                                       % params.get('timeout_s', 3600))
+        finally:
+            for rd, (ci, p) in running.items():
+                try:
+                    p.kill()
+                except Exception:
+                    pass
     stats = Stats()
     viols = []
     errors = []
-    if NPROC == 1 or os.environ.get('VERIF_INPROC'):
-        for ch in chunks:
-            s, v, e = _worker_chunk(mod.__name__, params, tier, root, ch,
-                                    params.get('chunk_timeout_s', 900))
-            stats.merge(s)
-            viols.extend(v)
-            errors.extend(e)
-        return stats, viols, errors
-    ctx = multiprocessing.get_context('fork')
-    ex = ProcessPoolExecutor(max_workers=NPROC, mp_context=ctx)
-    try:
-        futs = [ex.submit(_worker_chunk, mod.__name__, params, tier, root, ch,
-                          params.get('chunk_timeout_s', 900))
-                for ch in chunks]
-        for f in futs:          # merge in chunk order: deterministic
-            left = deadline - time.time()
-            try:
-                s, v, e = f.result(timeout=max(1, left))
-            except Exception as exc:
-                for p in list(getattr(ex, '_processes', {}).values()):
-                    try:
-                        p.kill()
-                    except Exception:
-                        pass
-                raise HarnessError('worker failed or timed out: %r' % (exc,))
-            stats.merge(s)
-            viols.extend(v)
-            errors.extend(e)
-    finally:
-        ex.shutdown(wait=False, cancel_futures=True)
+    for ci in sorted(results):          # merge in chunk order: deterministic
+        s_, v, e = results[ci]
+        stats.merge(s_)
+        viols.extend(v)
+        errors.extend(e)
     return stats, viols, errors
+
+
+def exec_case(mod, case, stats):
+    """Execute a case; a `prelude` (earlier cases of the same process) is
+    executed first so that state left behind by them is in place."""
+    for pc in case.get('prelude', []):
+        try:
+            mod.execute(dict(pc), Stats())
+        except (Exception, SimAbort):
+            pass
+    return mod.execute(case, stats)
 
 
 # --------------------------------------------------------------------------
@@ -236,7 +289,7 @@ def shrink(mod, case, viol, budget_s=90):
     progress = True
     while progress and time.time() - t0 < budget_s:
         progress = False
-        for cand in mod.shrink_candidates(cur):
+        for cand in _all_candidates(mod, cur):
             if time.time() - t0 > budget_s:
                 break
             for mk in ('property', 'run_index', 'root_seed', 'tier'):
@@ -246,7 +299,7 @@ def shrink(mod, case, viol, budget_s=90):
                 continue
             tried += 1
             try:
-                vs = mod.execute(cand, Stats())
+                vs = exec_case(mod, cand, Stats())
             except (Exception, SimAbort):
                 continue
             hit = [v for v in vs if v['key'] == key]
@@ -256,6 +309,26 @@ def shrink(mod, case, viol, budget_s=90):
                 break
     cur['shrink'] = {'candidates_tried': tried}
     return cur, curv
+
+
+def _all_candidates(mod, cur):
+    pre = cur.get('prelude')
+    if pre:
+        step = len(pre)
+        while step >= 1:
+            i = 0
+            while i < len(pre):
+                c = dict(cur)
+                c['prelude'] = pre[:i] + pre[i + step:]
+                if not c['prelude']:
+                    del c['prelude']
+                yield c
+                i += step
+            step //= 2
+    for c in mod.shrink_candidates(cur):
+        if pre and 'prelude' not in c:
+            c['prelude'] = pre
+        yield c
 
 
 def _core_of(case):
@@ -382,7 +455,7 @@ def _main_replay(mod, path):
     if hasattr(mod, 'prepare'):
         mod.prepare(dict(mod.TIERS['quick']), replay=True)
     stats = Stats()
-    vs = mod.execute(case, stats)
+    vs = exec_case(mod, case, stats)
     known = load_known(mod.ID)
     rc = 0
     for v in vs:
@@ -438,15 +511,42 @@ def _main_batch(mod, a, root):
         unknown.setdefault(v['key'], (i, case, v))
     rc = 0
     nrep = 0
+    orig_cases = {}
     for key, (i, case, v) in sorted(unknown.items(), key=lambda t: t[1][0]):
         if nrep >= 3:
             break
         nrep += 1
+        orig_cases[key] = dict(case)
         if not a.no_shrink and hasattr(mod, 'shrink_candidates'):
             case, v = shrink(mod, case, v,
                              budget_s=params.get('shrink_budget_s', 90))
         path = write_replay(mod, case, v)
         keys, out = replay_in_fresh_process(mod, path)
+        if (keys is None or v['key'] not in keys) and 'prelude' not in case:
+            # the violation may depend on state left behind by the earlier
+            # runs of the same (fresh, per-chunk) worker process: replay
+            # with those runs as a prelude, then shrink the prelude
+            cs = chunk_size(params)
+            start = (i // cs) * cs
+            pre = []
+            for j in range(start, i):
+                pc = mod.gen_case(Seeds(run_seed(root, mod.ID, tier, j)),
+                                  params, j)
+                pre.append(pc)
+            case2 = dict(orig_cases[key])
+            case2['prelude'] = pre
+            try:
+                vs2 = exec_case(mod, dict(case2), Stats())
+            except (Exception, SimAbort):
+                vs2 = []
+            hit = [x for x in vs2 if x['key'] == v['key']]
+            if hit:
+                case, v = case2, hit[0]
+                if not a.no_shrink and hasattr(mod, 'shrink_candidates'):
+                    case, v = shrink(mod, case, v, budget_s=params.get(
+                        'shrink_budget_s', 90))
+                path = write_replay(mod, case, v)
+                keys, out = replay_in_fresh_process(mod, path)
         if keys is None or v['key'] not in keys:
             print('HARNESS-ERROR: violation %s of run %d did not reproduce '
                   'in a fresh interpreter (replay %s)\n%s'
